@@ -493,7 +493,7 @@ func (p c10) Eval(c *Case, outs []*Out) []Discrepancy {
 							actual = mk
 						}
 					}
-					add("A", "combinator-ref-bound-to-wrong-target:"+r.Spelling+relSuffix(meta), fmt.Sprintf("%s branch $ref %q in %s (property %q) should merge %s but the field type %s carries %s", r.Combo, r.Ref, r.FromTag, r.Prop, toMk, ft, actual))
+					add("A", "combinator-ref-bound-to-wrong-target"+spellOrRel(r.Spelling, meta), fmt.Sprintf("%s branch $ref %q in %s (property %q) should merge %s but the field type %s carries %s", r.Combo, r.Ref, r.FromTag, r.Prop, toMk, ft, actual))
 				} else if cbs := cbTags(txt); r.CB != "" && txt != "" && (len(cbs) != 1 || cbs[0] != r.CB) {
 					// the merged struct is target + its own extra branch; a cb_ marker of ANOTHER composition in it means
 					// that merging wrote into a schema node shared with that other composition
@@ -513,7 +513,7 @@ func (p c10) Eval(c *Case, outs []*Out) []Discrepancy {
 						actual = mk
 					}
 				}
-				add("A", "ref-bound-to-wrong-target:"+r.Spelling+relSuffix(meta), fmt.Sprintf("$ref %q in %s (property %q) should denote %s (type %s.%s) but the field has type %s (package %s), which carries %s", r.Ref, r.FromTag, r.Prop, toMk, th.pkg, th.name, ft, pkg, actual))
+				add("A", "ref-bound-to-wrong-target"+spellOrRel(r.Spelling, meta), fmt.Sprintf("$ref %q in %s (property %q) should denote %s (type %s.%s) but the field has type %s (package %s), which carries %s", r.Ref, r.FromTag, r.Prop, toMk, th.pkg, th.name, ft, pkg, actual))
 				continue
 			}
 			key := r.ModelTag + "#" + r.ModelDef
@@ -641,6 +641,15 @@ func (p c10) Nontrivial(c *Case, outs []*Out) bool {
 		}
 	}
 	return false
+}
+
+// spellOrRel: the spelling of the reference, unless the world has a merged cross-file target with relative
+// references inside (KF-C10-2: they are resolved against the referrer's document, whatever the outer spelling)
+func spellOrRel(spelling string, m c10Meta) string {
+	if m.MergedRel {
+		return ":merged-target-has-relative-ref"
+	}
+	return ":" + spelling
 }
 
 func relSuffix(m c10Meta) string {
